@@ -19,6 +19,9 @@ from .core import cjson, digest, sha_text
 
 COLORS = ["red", "blue", "green", "gold", "gray50", "navy", "orchid3", "tomato", "ivory4",
           "darkorange", "black", "white", "firebrick", "cyan4", "purple"]
+# names that share one RGB definition, plus a colour whose table index lies between them
+ALIAS_FAMILIES = [("gray", "grey", "green"), ("darkgray", "darkgrey", "darkgreen"), ("gray50", "grey50", "green4"),
+                  ("lightgray", "lightgrey", "lightgreen")]
 TEXTS = ["alpha", "Drug A", "Placebo", "n (%)", "12.5", "a_b", "x^2", "\\alpha", "\\pm 3",
          ">= 5", "café", "β-blocker", "A very long label that needs wrapping in a narrow column",
          "", "{brace}", "semi;colon", "back\\slash", "Total"]
@@ -67,6 +70,8 @@ def gen_toggles(rng) -> dict:
     elif t["theme"] == "multi":
         t["multi"] = True
     t["palette"] = rng.sample(COLORS, t["n_colours"]) if t["colours"] else []
+    if t["palette"] and rng.random() < 0.25:
+        t["palette"] = list(rng.choice(ALIAS_FAMILIES)) + t["palette"][:2]
     return t
 
 
@@ -236,8 +241,9 @@ def gen_palette_of_specs(rng, t) -> dict:
         "source": [gen_text_comp(rng, t, "source") for _ in range(2)],
         "frames": {},
         # image files recur across documents of one run (content-keyed caches); some have no readable pixel size
-        "figfiles": [{"fmt": rng.choice(["png", "png", "jpeg", "raw", "emf"]), "w": rng.randrange(1, 400),
-                      "h": rng.randrange(1, 400), "seed": rng.randrange(1000)} for _ in range(3)],
+        "figfiles": [{"fmt": rng.choice(["png", "png", "jpeg", "jpeg", "raw", "emf"]),
+                      "w": rng.choice([rng.randrange(1, 400), 12000, 65000]),
+                      "h": rng.choice([rng.randrange(1, 400), 9000]), "seed": rng.randrange(1000)} for _ in range(3)],
     }
     for n in ncols_choices:
         kinds = ["plain", "plain"]
@@ -418,7 +424,28 @@ def expected_frame_snapshot(spec: dict) -> dict:
     }
 
 
+_IMG_BASE: dict = {}
+
+
+def _real_image(fmt: str) -> bytes:
+    """A genuine (tiny) image file written by Pillow, so that any reader - the
+    library's own header scan or a real decoder - accepts it."""
+    if fmt not in _IMG_BASE:
+        import io
+
+        from PIL import Image
+
+        im = Image.new("RGB", (8, 8), (200, 30, 30))
+        buf = io.BytesIO()
+        im.save(buf, format="PNG" if fmt == "png" else "JPEG")
+        _IMG_BASE[fmt] = buf.getvalue()
+    return _IMG_BASE[fmt]
+
+
 def figure_bytes(fs: dict) -> bytes:
+    """Image file content: a real image whose *header* announces fs['w'] x fs['h']
+    (only headers are ever read for the size), made unique per seed by a trailing
+    comment/extra chunk; 'raw'/'emf' have no readable size at all."""
     import random as _r
 
     rr = _r.Random(fs["seed"])
@@ -426,14 +453,30 @@ def figure_bytes(fs: dict) -> bytes:
     if fs["fmt"] in ("raw", "emf"):
         return noise  # no signature: pixel size cannot be read (fallback path of the encoder)
     if fs["fmt"] == "png":
-        ihdr = struct.pack(">IIBBBBB", fs["w"], fs["h"], 8, 2, 0, 0, 0)
-        chunk = b"IHDR" + ihdr
-        return (b"\x89PNG\r\n\x1a\n" + struct.pack(">I", len(ihdr)) + chunk
-                + struct.pack(">I", zlib.crc32(chunk)) + noise)
-    # minimal JPEG: SOI, APP0 stub, SOF0 with dims
-    sof = b"\xff\xc0" + struct.pack(">HBHHB", 11, 8, fs["h"], fs["w"], 1) + b"\x01\x11\x00"
-    app0 = b"\xff\xe0" + struct.pack(">H", 16) + b"JFIF\x00\x01\x01\x00\x00\x01\x00\x01\x00\x00"
-    return b"\xff\xd8" + app0 + sof + noise + b"\xff\xd9"
+        base = bytearray(_real_image("png"))
+        # IHDR is the first chunk: length(4) 'IHDR'(4) width(4) height(4) ... crc(4)
+        base[16:20] = struct.pack(">I", fs["w"])
+        base[20:24] = struct.pack(">I", fs["h"])
+        base[29:33] = struct.pack(">I", zlib.crc32(bytes(base[12:29])))
+        # unique per seed: a tEXt chunk before IEND
+        txt = b"tEXt" + b"seed\x00" + noise.hex().encode()
+        chunk = struct.pack(">I", len(txt) - 4) + txt + struct.pack(">I", zlib.crc32(txt))
+        iend = bytes(base).rfind(b"IEND") - 4
+        return bytes(base[:iend]) + chunk + bytes(base[iend:])
+    base = bytearray(_real_image("jpeg"))
+    i = 2
+    while i < len(base) - 9:
+        if base[i] == 0xFF and base[i + 1] in (0xC0, 0xC1, 0xC2):
+            base[i + 5:i + 7] = struct.pack(">H", min(fs["h"], 65535))
+            base[i + 7:i + 9] = struct.pack(">H", min(fs["w"], 65535))
+            break
+        if base[i] == 0xFF and base[i + 1] not in (0xD8, 0x01) and not (0xD0 <= base[i + 1] <= 0xD7):
+            i += 2 + struct.unpack(">H", bytes(base[i + 2:i + 4]))[0]
+        else:
+            i += 1
+    # unique per seed: a COM segment right after SOI
+    com = b"\xff\xfe" + struct.pack(">H", len(noise) + 2) + noise
+    return bytes(base[:2]) + com + bytes(base[2:])
 
 
 def figure_paths(recipe: dict, figdir: str) -> list:
